@@ -251,6 +251,22 @@ CLAIMED["C01"] = (
     "DESIGN.md §3 C01",
     "Partial claim.  The taint sources are integer parameters of the builtin modules and integer conversions of template values; arithmetic on other integers is out of scope.")
 
+# clauses added in round 8 (appended to the level text of the property)
+ROUND8 = {
+    "C01": "(P17) an instruction operand the interpreter uses as an index fits the table it indexes: every value the code generator can store at that payload position is a constant below the table's length (or one the consumer excludes itself), or a cast of a quantity under a dominating comparison that implies it.",
+    "C02": "(S9b) a transform that carries the safe flag over through preserve_safety does so on every success return.",
+    "C05": "B4 holds every call site of the evaluation closure in with_execution_state to the restore discipline (a fast path included).",
+    "C06": "(I2) the set of loaded templates starts empty in every State constructor and only load_blocks adds to it.",
+    "C07": "(V12) a de-duplicating filter decides by its seen set for every item, looks up and records the same key, and folds that key through the string view for strings only; (V13) a match on the value representation that names one string representation names the other (reviewed table for the 8 switches that do not).",
+    "C11": "(R11) every field incr_depth writes is read by Context::depth(), in every feature configuration incl. MAC (macros without multi_template), which is analysed in both tiers for this rule.",
+    "C12": "(M10c) a loop that applies the mode helper to a collection of operands is left only at the end of the collection or with an error.",
+    "C14": "(F1d) process_err attaches debug info only where the error has none yet (no disjunction).",
+    "C16": "(T9) the serde bridge handles the two string representations alike.",
+    "C18": "(W9) a call name the tracker never reports (`super`) is recognised by the CallFunction handler before any context lookup.",
+    "C19": "(O9) no function handed a Formatter / Output names a thread-local or a static with interior mutability (positive control).",
+    "C20": "(A8) Notifier::handle() answers None only when Weak::upgrade() does; the flag field is found by role.",
+}
+
 NOT_APPLICABLE = {
     "C03": "equality of rendered output with a reference semantics over all programs x contexts quantifies over runtime values; its structural part (frame/capture/escape pairing, jump nesting) is decided under C05, nothing else is visible in the shape of the code, and a reference interpreter would be a different technique",
     "C09": "Python slice semantics over (kind, len, start, stop, step) is integer arithmetic on runtime values: no sound static argument in reach bounds it; the panics the slicing code hid (empty / inverted / extreme bounds) were found by the C01 taint rule and repaired, but the selected elements are value-level and not claimed",
@@ -267,6 +283,8 @@ def main():
     for p in props:
         if p in CLAIMED:
             tech, text, ref, note = CLAIMED[p]
+            if p in ROUND8:
+                text = text + " Round 8: " + ROUND8[p]
             checks.append({
                 "property_id": p,
                 "quick_cmd": "./check %s --tier quick" % p,
